@@ -56,7 +56,8 @@ def evalAtPowers (F : FieldOps α) : Nat → α → List α → List α
     let (lo, hi) := butterflies F w F.one e o
     lo ++ hi
 
-def isPow2 (n : Nat) : Bool := n != 0 && n &&& (n - 1) == 0
+/-- `is_power_of_two` -/
+def isPow2 (n : Nat) : Bool := n != 0 && n == 2 ^ Nat.log2 n
 
 /-- spec-level `ntt`: panics like the Rust entry point (length above `u32::MAX`, or neither 0 nor a power of two) -/
 def specNtt (F : FieldOps α) (xs : List α) : Option (List α) :=
